@@ -7,7 +7,9 @@ PROPS = {
                   # LuaDiagnosticConfig::new builds the sets the precedence chain reads faithfully from the configuration
                   {'unit': 'c20_inputs', 'labels': [r'C20\.config', r'^(?!.*\[C(19|20)\.).*$']},
                   # the globals guard of the undefined-global checker and the real DiagnosticIndex writers
-                  {'unit': 'c20_globals', 'labels': [r'C20\.', r'^(?!.*\[C(19|20)\.).*$']}],
+                  {'unit': 'c20_globals', 'labels': [r'C20\.', r'^(?!.*\[C(19|20)\.).*$']},
+                  # "meta files report nothing": the ---@meta tag marks the file's module entry meta on every path (also when ---@meta <name> re-registers the module)
+                  {'unit': 'c10_module', 'labels': [r'C20\.']}],
         'level': 'proof',
         'level_text': 'Verus discharges, for every state of the indexes and every configuration, the precedence chain of is_checker_enable_by_code, the report/skip/severity contract of add_diagnostic and get_severity, and the enable/library guards of diagnose_file, on the function text extracted from /repo on each run. Unbounded: no input is sampled.',
         'level_note': 'index lookups, default tables, translate_range and check_file are uninterpreted (weakest contract); LuaDiagnosticConfig::new is proved in unit c20_inputs (sets/maps are exactly the configured lists); the globals/globalsRegex guard (check_name_expr of undefined_global.rs) and the DiagnosticIndex writers are proved in unit c20_globals; which globalsRegex patterns compile / what they match is not covered; frame of `diagnostics` by module privacy + scan; Verus/Z3/rustc trusted',
@@ -44,6 +46,31 @@ PROPS = {
         'level_note': 'text-size shim (cross-checked by Kani), DiagnosticCode/FileId opaque with obeys_key_model; the regions of disable-next-line ([comment start, end of the line after the last line of the comment)) and disable-line (exactly the line of the comment) are proved on the extracted statement slices of diagnostic_tags.rs in unit c22_lineindex (labels C19.*) using the LuaDocument contracts; the block range of `disable` comes from the AST (not covered)',
         'not_covered': ['analyze_diagnostic_* AST plumbing (which comment owns which block)', 'checkers that bypass add_diagnostic (none found by scan)'],
     },
+    'C32': {
+        'units': [{'unit': 'c32_merge', 'labels': [r'C32\.', r'^(?!.*\[C3[12]\.).*$']}],
+        'replays': [{'for': r'C32\.', 'driver': 'replay/c32', 'bin': 'replay', 'thorough': True, 'quick': True,
+                     'history': 'load_configs_raw on 14 concrete file lists: the same array from two files, overlapping arrays, a flat key then the nested spelling (and the reverse), keys with empty segments; expected merged configuration compared'}],
+        'level': 'proof',
+        'level_text': 'On the real flatten_object / FlattenConfigObject::{parse,to_emmyrc} / to_emmyrc_json / merge_values and the merging tail of load_configs_raw (serde_json::Value and Map shimmed as data types with their documented operations), for every JSON value and every list of files: parse yields exactly the (dotted path -> leaf) pairs the value denotes, where a flat key "a.b" at any depth denotes the same path as the nested form (flat equals nested); to_emmyrc_json builds the nested form of the flat map for an ARBITRARY iteration order of the hash map and no other value qualifies (deterministic, order-independent); merge_values merges objects member by member, appends to an array exactly the later elements that are not yet present (no duplicates), and otherwise takes the later value; for file lists in which no file spells one setting twice and no setting lies below another one, the loaded configuration is the nested form of "for every path, the leaf of the LAST file that sets it" (later file wins whichever spelling each file uses).',
+        'level_note': 'serde_json::Value / Map, hashbrown HashMap<String, Value>, HashSet<Value> are shims with their documented contracts (iteration order left unspecified: nothing proved depends on it); split(\'.\') / format!("{}.{}") as helpers with std-doc specs; the reading half (files, JSON / Lua parsing, serde into Emmyrc) is not under contract; for file lists outside files_ok (one file spelling a setting twice, "a": 1 next to "a.b": 2) only no-panic, the array clause, the parse contract and order-independence are proved - the property does not say which shape wins there',
+        'not_covered': ['file reading, JSON / Lua parsing, serde deserialisation into Emmyrc', 'which of two spellings inside ONE file is kept', 'workspace_manager: the order in which config files are collected'],
+    },
+    'C33': {
+        'units': [{'unit': 'c10_module', 'labels': [r'C33\.', r'^(?!.*\[C(09|10|20|33)\.).*$']}],
+        'level': 'proof',
+        'level_text': 'Clause-level, on the real LuaModuleIndex (unit c10_module), for every index state satisfying the tree invariant module_wf (proved to be established by new/clear and preserved by every writer) and every path: add_module_by_module_path / add_module_by_path register the file at exactly the node reached from the root by the dotted parts of its module path, list it there once and leave every other registration untouched; exact_find_module / find_module_by_normalized_path / find_module_node return exactly the registration reached by the parts of the required path (the only file of the node, else the first non-hidden, else the first); find_module tries the exact path first and answers with it whenever it exists (exact before mapped before fuzzy); after remove(file) a path that only that file registered resolves to nothing (lemma_removed_is_unresolvable).',
+        'level_note': 'NOT decided: the pattern / moduleMap layer (extract_module_path, replace_module_path: regex, Path and string splitting are uninterpreted functions of the state they read), fuzzy_find_module (no contract: the fuzzy fallback and its tie-break), go-to-definition on the require string and the inferred module type (handlers / inference). Determinism: the choice among several files registered under ONE module name is a function of the ORDER of registrations (the first visible file of the node): re-submitting an unchanged file moves it behind its duplicates (a.lua and a/init.lua: require "a" switches from a.lua to a/init.lua after a.lua is edited) - proved as lemma_resubmission_changes_choice from the exact contracts, recorded in DESIGN.md section 7 as an observation, no obligation of this check states history independence; split(\'.\') / join / to_string are std contracts (external_body helpers whose body is the call)',
+        'not_covered': ['pattern matching ?.lua / ?/init.lua / custom patterns and moduleMap rewrites', 'fuzzy suffix search and its ranking', 'agreement of go-to-definition and the inferred module type with find_module', 'history independence of the choice among files that share a module name'],
+    },
+    'C35': {
+        'units': [{'unit': 'c35_export'}],
+        'replays': [{'for': r'output-independent-of-hash-order|every-main-module-listed', 'driver': 'replay/c35', 'bin': 'replay', 'thorough': True,
+                     'history': 'a generated workspace (14 types, 13 modules, 12 globals, one library) exported by emmylua_doc_cli::run_doc_cli in 8 child processes; outputs compared byte for byte; every declared item looked up in the JSON'}],
+        'level': 'proof',
+        'level_text': 'On the real export_types / export_modules / export_globals / export (iterator pipelines desugared to loops by named rules) and the real index accessors get_all_types / get_module_infos / get_all_global_decl_ids / is_main, for every index state satisfying index_wf: each accessor yields every stored value exactly once; the exported lists contain exactly one entry per class / enum / alias with a location in the main workspace, per main-workspace module that exports a value, per main-workspace global with a declaration and a cached type - nothing whose locations are all in library / std workspaces; and each list equals the listing of its selection in the canonical (strictly sorted, total) key order, i.e. it is a function of the index CONTENTS and independent of the iteration order of the hash maps (sort_by comparator proved to be that total order).',
+        'level_note': 'the per-item renderers (export_class / export_enum / export_alias / export_members / export_property / render_typ) are uninterpreted deterministic functions of (db, item) - an assumption, known to have been false for Enum.typ before fix c5dddaa; index_wf (each declaration stored under its own id, each module under its own file id, no decl id in two global slots) is a precondition, proved for the module index in unit c10_module; derived Ord of LuaTypeDeclId is a total order consistent with Eq (assumed: derive); std contracts of sort_by and Ordering::then as assume_specification; serde serialisation and generate_json not covered; OPEN known finding: a main-workspace module whose file returns nothing is not listed',
+        'not_covered': ['bytes of an entry beyond its selection and order (renderers uninterpreted)', 'reproducibility of the index contents themselves (file-id assignment, per-name vector order)', 'generate_json / serde / file writing', 'the markdown generator'],
+    },
     'C36': {
         'units': [{'unit': 'c36_exit'}, {'unit': 'c36_writers'},
                   # task/channel bookkeeping of run_check + the whole receive loop of output_result + main-workspace file selection
@@ -68,7 +95,9 @@ PROPS = {
     },
     'C09': {
         # c22_vfs: a re-submitted text is always re-parsed under the current configuration (trees are Vfs state that clear() does not touch)
-        'units': [{'unit': 'c09_clear'}, {'unit': 'c09_reindex'}, {'unit': 'c22_vfs', 'labels': [r'C09\.vfs']}],
+        'units': [{'unit': 'c09_clear'}, {'unit': 'c09_reindex'}, {'unit': 'c22_vfs', 'labels': [r'C09\.vfs']},
+                  # LuaModuleIndex::{new, clear} leave exactly the root node (module_wf of the empty tree); re-adding a file sweeps its old registration first
+                  {'unit': 'c10_module', 'labels': [r'C09\.']}],
         'replays': [{'for': r'LuaMemberIndex::clear', 'driver': 'replay/c09', 'bin': 'replay',
                      'history': 'analyse a file declaring class members; clear_index(); query get_current_owner for the old member ids'}],
         'level': 'proof',
@@ -90,8 +119,16 @@ PROPS = {
         'not_covered': ['Vfs pairing of text and LineIndex', 'LineIndex::is_line_only_ascii, LuaDocument::{get_text_slice, get_line_count, get_document_lsp_range, ...}'],
     },
     'C10': {
-        'units': [{'unit': 'c10_remove'}, {'unit': 'c10_remove2'}, {'unit': 'c22_vfs', 'labels': [r'C10\.vfs']}],
-        'replays': [{'for': r'LuaModuleIndex|module', 'driver': 'replay/c10', 'bin': 'replay', 'thorough': True, 'quick': True,
+        'units': [{'unit': 'c10_remove'}, {'unit': 'c10_remove2'}, {'unit': 'c22_vfs', 'labels': [r'C10\.vfs']},
+                  # LuaModuleIndex::remove under the tree invariant module_wf (established by new/clear, preserved by add/remove): file map, node lists,
+                  # name table swept; emptied nodes released; wf re-established
+                  {'unit': 'c10_module', 'labels': [r'C10\.', r'^(?!.*\[C(09|10|20|33)\.).*$']},
+                  # the WRITERS of the member / operator / type / property / global / metatable indexes establish the invariants remove relies on
+                  # (per-file bookkeeping lists every object the file contributed)
+                  {'unit': 'c10_writers'}],
+        'replays': [{'for': r'$^', 'driver': 'replay/c10_trace', 'bin': 'replay', 'args': {'mode': 'search', 'seed': 1, 'count': 210, 'known': '--known', 'file': 'known_open_findings.txt'}, 'thorough': True, 'on_undecided': True,
+                     'history': 'generated workspaces of 2-4 files from 20 building blocks (partial classes, members from two files, operators, setmetatable, globals, require, meta, namespaces, labels, ...): for every file F on a fresh EmmyLuaAnalysis: remove F and search the Debug dump of the whole DbIndex for its FileId (TRACE), add+remove F and compare with the state that never had F (NEVER-HAD), 5 add/remove rounds (GROWTH)'},
+                    {'for': r'LuaModuleIndex|module', 'driver': 'replay/c10', 'bin': 'replay', 'thorough': True, 'quick': True,
                      'history': 'EmmyLuaAnalysis: add a main workspace, update_file_by_uri(lib/a.lua), remove_file_by_uri; inspect the module index; then 5 edits of one file'},
                     {'for': r'Vfs::', 'driver': 'replay/c10_vfs', 'bin': 'replay',
                      'history': 'EmmyLuaAnalysis: update_file_by_uri(untitled:Untitled-1) twice, remove_file_by_uri, then look for the text in the Vfs'}],
@@ -101,7 +138,10 @@ PROPS = {
         'not_covered': ['module/member/type/operator/metatable/global indexes', 'reference index nested sweeps', 'Vfs::remove_file', 'memory release'],
     },
     'C31': {
-        'units': [{'unit': 'c31_path'}],
+        'units': [{'unit': 'c31_path'},
+                  # key flattening + merging of the configuration files: the two expect("always an object") of to_emmyrc_json are unreachable for every flat
+                  # map (keys that are both a value and a prefix, empty keys, keys of only dots); merge_values / flatten_object / the merging tail have no precondition
+                  {'unit': 'c32_merge', 'labels': [r'C31\.', r'^(?!.*\[C3[12]\.).*$']}],
         'replays': [{'for': r'pre_process_path::expand', 'driver': 'replay/c31', 'bin': 'replay',
                      'history': 'Emmyrc with workspace.workspaceRoots = ["~"] / ["~é"]; pre_process_emmyrc(workspace)'},
                     {'for': r'$^', 'driver': 'replay/c31', 'bin': 'replay', 'args': {'mode': 'search'}, 'on_undecided': True, 'quick': True,
@@ -109,7 +149,7 @@ PROPS = {
         'level': 'proof',
         'level_text': 'Path-expansion clause only: Verus proves on the extracted `~` / `./` / absolute / relative chain of PreProcessContext::pre_process_path that, for every path string, both string slices are in bounds and on char boundaries (the only panic sources of that chain), using proved UTF-8 lemmas (one/two leading ASCII characters occupy one/two bytes).',
         'level_note': 'PathBuf/dirs opaque; str::starts_with and trim_start_matches std contracts assumed; NOT covered by contracts: key flattening of .luarc.json (the &mut serde_json::Value cursor is outside the dialect and Kani cannot compile serde_json), Lua config loading, file reading, serde deserialisation, env-var and placeholder replacement (regex crate) — for these both tiers run the BOUNDED search replay/c31 (168 generated path strings / .luarc.json / .emmyrc.json / .emmyrc.lua files through load_configs and pre_process_emmyrc), listed under coverage.bounded and never counted as proved',
-        'not_covered': ['FlattenConfigObject / to_emmyrc_json', 'load_configs_raw / lua_loader', 'replace_env_var / replace_placeholders'],
+        'not_covered': ['the reading half of load_configs_raw (file reading, JSON / Lua parsing) and serde deserialisation into Emmyrc', 'lua_loader', 'replace_env_var / replace_placeholders'],
     },
     'C01': {
         'units': [{'unit': 'c01_reader', 'labels': [r'C01\.', r'^(?!.*\[C0[12]\.).*$']},
@@ -118,6 +158,9 @@ PROPS = {
                   # the doc-comment re-lexer: LuaDocLexer tiles its range, the LuaDocParser driver emits every re-lexed token once,
                   # parse_comment/parse_docs run to the end of the comment span (the contract c01_parser assumes for LuaDocParser::parse)
                   {'unit': 'c01_doc', 'labels': [r'C01\.', r'^(?!.*\[C0[12]\.).*$']},
+                  # the ~2200 lines of statement / expression grammar (grammar/lua/{mod,stat,expr}.rs), all 53 fns with their real bodies: they keep the
+                  # driver invariant (every token emitted exactly once, in order) - this DISCHARGES the contract unit c01_parser assumes for parse_stats
+                  {'unit': 'c02_grammar', 'labels': [r'C01\.', r'^(?!.*\[C0[12]\.).*$']},
                   # machine-checked glue: tiled => tokens_ok, emits + tiled => ranges_ok and tiling of [0, n), leaves tile => concatenation == text
                   {'unit': 'c01_compose'}],
         'replays': [{'for': r'.', 'driver': 'replay/c01', 'bin': 'replay', 'args': {'mode': 'search', 'seed': 1, 'count': 200000}, 'quick': True, 'on_undecided': True,
@@ -131,9 +174,12 @@ PROPS = {
         'units': [{'unit': 'c01_reader', 'labels': [r'C02\.', r'^(?!.*\[C0[12]\.).*$']},
                   {'unit': 'c01_parser', 'labels': [r'C02\.', r'^(?!.*\[C0[12]\.).*$']},
                   {'unit': 'c01_green', 'labels': [r'C02\.', r'^(?!.*\[C0[12]\.).*$']},
-                  {'unit': 'c01_doc', 'labels': [r'C02\.', r'^(?!.*\[C0[12]\.).*$']}],
+                  {'unit': 'c01_doc', 'labels': [r'C02\.', r'^(?!.*\[C0[12]\.).*$']},
+                  # the Lua grammar: no panic (every bump / marker / push_node_end precondition discharged at every call site), every loop and
+                  # the whole recursive descent terminate (decreases (tokens remaining, rank)), progress postconditions of every statement parser
+                  {'unit': 'c02_grammar', 'labels': [r'C02\.', r'^(?!.*\[C0[12]\.).*$']}],
         'replays': [{'for': r'.', 'driver': 'replay/c01', 'bin': 'replay', 'args': {'mode': 'search', 'seed': 1, 'count': 200000}, 'quick': True, 'on_undecided': True,
-                     'history': 'parse the text with LuaParser::parse; a panic counts'},
+                     'history': 'parse the text with LuaParser::parse; a panic or a parse that does not return within 20 s counts'},
                     {'for': r'$^', 'driver': 'replay/c02', 'bin': 'replay', 'args': {'mode': 'search'}, 'thorough': True,
                      'history': 'deeply nested input (parens, tables, function bodies, unary/right-assoc operators, call/index chains, doc types, if/do blocks) at depths 1e2..1e5, parsed on a 2 MiB thread stack in a child process'}],
         'level': 'proof',
@@ -169,6 +215,10 @@ PROPS = {
                   {'unit': 'c25_sites'}],
         'replays': [{'for': r'.', 'driver': 'replay/c22', 'bin': 'replay', 'args': {'mode': 'search', 'seed': 1, 'maxlen': 4}, 'on_undecided': True,
                      'history': 'position <-> offset conversions on all texts over {a, é, emoji, \\n, \\r} up to 4 chars'},
+                    {'for': r'to_rowan_range:precondition-not-satisfied', 'driver': 'replay/c25', 'bin': 'replay', 'args': {'mode': 'reversed-range'}, 'target': 'replay-target-hook',
+                     'history': 'LuaDocument::to_rowan_range on a 4-line document with the client ranges 0:5-0:1, 3:0-1:0, 0:u32::MAX-0:0 (what rangeFormatting / colorPresentation pass on unchanged)'},
+                    {'for': r'$^', 'driver': 'replay/c25', 'bin': 'replay_handlers', 'features': 'handler_hooks', 'args': {}, 'thorough': True, 'target': 'replay-target-hook',
+                     'history': 'the real async handlers under tokio through the guarded hook: rangeFormatting and colorPresentation with reversed ranges; didOpen a.lua (function M.foo at offset 1107) + b.lua (require + call), inlayHint, didChange a.lua to "return {}", inlayHint and the ten position-taking requests at all 59 positions of b.lua'},
                     {'for': r'$^', 'driver': 'replay/c25', 'bin': 'replay', 'args': {'mode': 'search'}, 'thorough': True, 'quick': True, 'on_undecided': True, 'target': 'replay-target-hook',
                      'history': 'the real handlers (hover, definition, implementation, references, rename, completion x2, signature help x2, code actions) through the guarded hook emmylua_ls::verif_hooks on 24 documents x every position on / beyond each line and the document'}],
         'engines': [{'kind': 'scan', 'name': 'token_at_offset', 'glob': 'crates/emmylua_ls/src/handlers/**/*.rs',
@@ -179,7 +229,10 @@ PROPS = {
         'not_covered': ['handler bodies', 'call sites not fed by a client position'],
     },
     'C26': {
-        'units': [{'unit': 'c26_semantic_tokens'}, {'unit': 'c26_ranges'}],
+        'units': [{'unit': 'c26_semantic_tokens'}, {'unit': 'c26_ranges'},
+                  # hand-built Locations pair a uri with a range of the SAME document (10 sites + LuaDocument::to_lsp_location); the description part of
+                  # selection ranges (add_detail_ranges): half-open containment, sorted by length, strictly growing chain under laminar markup items
+                  {'unit': 'c26_locations'}],
         'level': 'proof',
         'level_text': 'Semantic-token sentence only. On the real SemanticBuilder and legend code, for all inputs: (legend) every SemanticTokenTypeKind maps to an index inside all_types() whose entry is its own token type (spec copies of to_u32 / to_semantic_token_type / all_types extracted from the repository text and tied to the exec code); the ten modifier constants are exactly the bits 0..9 of all_modifiers(), bit-or preserves "only legend bits", and every token pushed through push* and emitted by build() has type index < legend length and modifier bits < 2^10; (encoder) build() emits one token per pushed piece, the LSP decoding of its delta encoding is the (line, col)-sorted sequence of the pieces (hence ordered), no u32 underflow; push_data splits a multi-line token into exactly one piece per line in order, first at start_col, others at column 0, last of length end_col.',
         'level_note': 'assumed: std contracts of sort_unstable_by and into_iter().map().collect(); LuaDocument::get_line_col contract + monotonicity are proved in unit c22_lineindex and restated here as shim/axiom; lsp_types constants pairwise distinct; handlers call push* with ranges of the document tree and modifiers built from the ten constants (privacy + reading). NOT covered: non-overlap of tokens, the sentinel length 9999 of split pieces vs. the line length, document symbols, folding ranges, selection ranges, completion edits, workspace edits',
